@@ -18,6 +18,12 @@
   (`reader_output_api`: the reader's output meets the hypotheses of C01.api_roundtrip).
   `absent_table_value_refused`: the one accepted layout outside PhysTM (a table-level entry
   without a value) makes sbdf_tm_write fail.
+  (6) `post_readTM` + `accepted_rewrite`: for EVERY byte string on which sbdf_tm_read returns OK
+  the returned structure is one of the two forms above (Sbdf/Lemmas/Post.lean: postconditions of
+  the readers on arbitrary input), so the foreign clause holds for every accepted table-metadata
+  section, not only for the canonical encodings.  The slices enter `accepted_rewrite` with the
+  hypothesis that their sizes are within the limits (TSFits): that the byte-size header of a
+  re-written string array fits an int is a property of the input size, not of the reader.
 -/
 import Sbdf.Props.C03
 import Sbdf.Props.C04
@@ -25,6 +31,7 @@ import Sbdf.Props.C07
 import Sbdf.Props.C01
 import Sbdf.Lemmas.FirstApp
 import Sbdf.Props.C15
+import Sbdf.Lemmas.Post
 namespace Sbdf.C08
 open Spec
 
@@ -667,5 +674,168 @@ theorem absent_table_value_refused (c : Cfg) (tm : TM) (e : MdEntry) (he : e ∈
   refine seq_st_ne_ok_left (seq_st_ne_ok_left (seq_st_ne_ok_right ?_))
   refine seqAll_st_ne_ok _ (writeTableEntry c e) (List.mem_map_of_mem he) ?_
   simp [writeTableEntry, hv]
+
+
+/-! ### every accepted byte string: the reader's result is one of the forms above -/
+
+theorem all2_of_forall_exists {α β : Type} {R : α → β → Prop} (bs : List β) (h : ∀ b ∈ bs, ∃ a, R a b) :
+    ∃ as, All2 R as bs := by
+  induction bs with
+  | nil => exact ⟨[], .nil⟩
+  | cons b bs ih =>
+    obtain ⟨a, ha⟩ := h b (by simp)
+    obtain ⟨as, has⟩ := ih (fun x hx => h x (by simp [hx]))
+    exact ⟨a :: as, .cons ha has⟩
+
+/-- the column reader, on any input: its result is what `buildCol` makes of SOME list of optional
+    values, each a singleton of its row's type within the allocation limits -/
+theorem post_readColumn (c : Cfg) (rows : List NameRow) (hrows : ∀ r ∈ rows, r.vt < 256) (m : Md) :
+    Post (readColumn c rows m) (fun m' => ∃ pc : List (Option Obj), pc.length = rows.length ∧
+      (∀ q ∈ rows.zip pc, ∀ x, q.2 = some x → MdObjOk c x ∧ x.tid = q.1.vt) ∧ buildCol rows pc m = .ok m') := by
+  induction rows generalizing m with
+  | nil => exact Post.pure ⟨[], rfl, by simp, rfl⟩
+  | cons r rs ih =>
+    simp only [readColumn, P.bind_def]
+    refine Post.bind (Post.readOptObj c r.vt false (hrows r (by simp))) (fun o ho => ?_)
+    have ih' := fun m1 => ih (fun r' hr' => hrows r' (by simp [hr'])) m1
+    cases o with
+    | none =>
+      refine (ih' m).weaken (fun m' hm => ?_)
+      obtain ⟨pc, hl, hv, hb⟩ := hm
+      refine ⟨none :: pc, by simp [hl], ?_, by simpa [buildCol] using hb⟩
+      intro q hq x hx
+      simp only [List.zip_cons_cons, List.mem_cons] at hq
+      rcases hq with rfl | hq
+      · cases hx
+      · exact hv q hq x hx
+    | some v =>
+      simp only
+      cases ha : Md.add r.name v r.dflt m with
+      | error e => exact Post.fail
+      | ok m1 =>
+        refine (ih' m1).weaken (fun m' hm => ?_)
+        obtain ⟨pc, hl, hv, hb⟩ := hm
+        refine ⟨some v :: pc, by simp [hl], ?_, by simp [buildCol, ha, hb]⟩
+        intro q hq x hx
+        simp only [List.zip_cons_cons, List.mem_cons] at hq
+        rcases hq with rfl | hq
+        · exact ho x hx
+        · exact hv q hq x hx
+
+theorem post_readMdValues (c : Cfg) (vt : Nat) (hvt : vt < 256) :
+    Post (readMdValues c vt) (fun x => (∀ y, x.1 = some y → MdObjOk c y ∧ y.tid = vt) ∧
+      (∀ y, x.2 = some y → MdObjOk c y ∧ y.tid = vt)) := by
+  unfold readMdValues
+  simp only [P.bind_def]
+  exact Post.bind (Post.readOptObj c vt true hvt) (fun value hv =>
+    Post.bind (Post.readOptObj c vt true hvt) (fun dflt hd => Post.pure ⟨hv, hd⟩))
+
+theorem post_readTableEntry (c : Cfg) :
+    Post (readTableEntry c) (fun e => fitsStr c e.name.length ∧
+      ∀ v, e.value = some v → MdObjOk c v ∧ ∀ d, e.dflt = some d → MdObjOk c d ∧ d.tid = v.tid) := by
+  unfold readTableEntry
+  simp only [P.bind_def]
+  refine Post.bind (Post.readString c) (fun name hn => ?_)
+  refine Post.bind Post.readInt8 (fun vt hvt => ?_)
+  refine Post.bind (post_readMdValues c vt hvt) (fun x hx => ?_)
+  obtain ⟨value, dflt⟩ := x
+  refine Post.pure ⟨hn, ?_⟩
+  intro v hv
+  obtain ⟨h1, h2⟩ := hx.1 v hv
+  exact ⟨h1, fun d hd => ⟨(hx.2 d hd).1, by rw [(hx.2 d hd).2, h2]⟩⟩
+
+theorem post_readNameRow (c : Cfg) : Post (readNameRow c) (NameRowOk c) := by
+  unfold readNameRow
+  simp only [P.bind_def]
+  refine Post.bind (Post.readString c) (fun name hn => ?_)
+  refine Post.bind Post.readInt8 (fun vt hvt => ?_)
+  exact Post.bind (Post.readOptObj c vt false hvt) (fun dflt hd => Post.pure ⟨hn, hvt, hd⟩)
+
+/-- `sbdf_tm_read` on ANY byte string: if it returns OK, the structure it returns either has a
+    table-level entry without a value, or is exactly what the reader returns for some well-formed
+    physical section (`readerTM p cols` with `p.Ok c cols`) — non-canonical encodings of the same
+    content (column presence flags other than 0/1) decode to the same in-memory form. -/
+theorem post_readTM (c : Cfg) :
+    Post (readTM c) (fun tm => (∃ e ∈ tm.table.entries, e.value = none) ∨
+      ∃ p cols, Spec.PhysTM.Ok c p cols ∧ tm = readerTM p cols) := by
+  unfold readTM
+  simp only [P.bind_def]
+  refine Post.bind (Q := fun _ => True) Post.trivial (fun _ _ => ?_)
+  refine Post.bind (Post.readInt32 c) (fun count hcount => ?_)
+  refine Post.ite (fun _ => Post.fail) (fun hc0 => ?_)
+  refine Post.bind (Post.readMany (post_readTableEntry c) count.toNat) (fun entries hent => ?_)
+  refine Post.bind (Post.readInt32 c) (fun colCnt hcc => ?_)
+  refine Post.bind (Post.alloc c _) (fun _ hca => ?_)
+  refine Post.bind (Post.remapErr .oom (Post.readInt32 c)) (fun mdCnt hmc => ?_)
+  refine Post.bind (Post.alloc c _) (fun _ hma => ?_)
+  refine Post.bind (Post.readMany (post_readNameRow c) mdCnt.toNat) (fun rows hrows => ?_)
+  refine Post.bind (Post.readMany (post_readColumn c rows (fun r hr => (hrows.2 r hr).2.1) Md.empty) colCnt.toNat)
+    (fun cols hcols => Post.pure ?_)
+  by_cases hall : ∀ e ∈ entries, ∃ v, e.value = some v
+  · right
+    obtain ⟨pcs, hpcs⟩ := all2_of_forall_exists (R := ColOk c rows) cols (fun m hm => by
+      obtain ⟨pc, h1, h2, h3⟩ := hcols.2 m hm; exact ⟨pc, h1, h2, h3⟩)
+    have hcc0 : (0 : Int) ≤ colCnt := by omega
+    have hmc0 : (0 : Int) ≤ mdCnt := by omega
+    refine ⟨⟨C03.tableTriples entries, rows, pcs⟩, cols, ⟨?_, hrows.2, ?_, ?_, ?_, hpcs⟩, ?_⟩
+    · intro t ht
+      simp only [C03.tableTriples, List.mem_filterMap] at ht
+      obtain ⟨e, he, hte⟩ := ht
+      obtain ⟨v, hv⟩ := hall e he
+      simp only [hv, Option.map_some, Option.some.injEq] at hte
+      subst hte
+      obtain ⟨hn, hvv⟩ := hent.2 e he
+      exact ⟨hn, (hvv v hv).1, (hvv v hv).2⟩
+    · have : (C03.tableTriples entries).length ≤ entries.length := by
+        unfold C03.tableTriples; exact List.length_filterMap_le _ _
+      have h1 := hent.1
+      unfold isInt32 at hcount; unfold INT_MAX
+      simp only
+      omega
+    · have := hpcs.length_eq
+      simp only
+      rw [this, hcols.1]
+      have : ((colCnt.toNat : Nat) : Int) = colCnt := Int.toNat_of_nonneg hcc0
+      unfold isInt32 at hcc; unfold INT_MAX
+      omega
+    · simp only
+      rw [hrows.1]
+      have : ((mdCnt.toNat : Nat) : Int) = mdCnt := Int.toNat_of_nonneg hmc0
+      unfold isInt32 at hmc; unfold INT_MAX
+      omega
+    · simp only [readerTM]
+      rw [C01.triples_roundtrip entries hall]
+  · left
+    false_or_by_contra
+    rename_i hno
+    apply hall
+    intro e he
+    cases hv : e.value with
+    | none => exact absurd ⟨e, he, hv⟩ hno
+    | some v => exact ⟨v, rfl⟩
+
+/-- C08, foreign clause at full strength for the table metadata: for EVERY byte string, at every
+    offset, on which `sbdf_tm_read` returns OK, and every list of slices within the limits
+    (what `sbdf_ts_read` returned), writing the returned structures back either fails in
+    `sbdf_tm_write`, or produces a file that reads back OK to the same table-level entries, the
+    same slices, end-of-table, and per column the same value under every name. -/
+theorem accepted_rewrite (c : Cfg) (d : Array UInt8) (pos pos' : Nat) (tm : TM)
+    (hread : readTM c d pos = .ok (tm, pos'))
+    (slices : List (List CS)) (hn : ∀ s ∈ slices, s.length = tm.cols.length) (hf : ∀ s ∈ slices, TSFits c s)
+    (fuel : Nat) (hfuel : slices.length < fuel) :
+    (writeTM c tm).st ≠ .ok ∨
+    (∃ bytes cols', Emits (writeFile c ⟨tm, slices.map (fun s => ⟨s.map some⟩)⟩) bytes ∧
+      readFileF c none fuel bytes.toArray =
+        ⟨.ok (1, 0), some (.ok ⟨tm.table, cols'⟩),
+         slices.map (fun s => ⟨s.map some⟩), some (.tableEnd bytes.length)⟩ ∧
+      All2 (fun (col col' : Md) => ∀ n, (col'.find n).bind (·.value) = (col.find n).bind (·.value))
+        tm.cols cols') := by
+  rcases post_readTM c d pos tm pos' hread with ⟨e, he, hv⟩ | ⟨p, cols, hok, rfl⟩
+  · exact .inl (absent_table_value_refused c tm e he hv)
+  · have hn' : ∀ s ∈ slices, s.length = p.cols.length := by
+      intro s hs; rw [hn s hs]; simp [readerTM, hok.clen]
+    rcases foreign_rewrite c p cols slices hok hn' hf fuel hfuel with ⟨e, _, hst⟩ | h
+    · exact .inl (by rw [hst]; decide)
+    · exact .inr h
 
 end Sbdf.C08
